@@ -396,8 +396,8 @@ theorem refactor_unchanged (e : Expr) (alias : String) (h : e.containsRef alias 
 
 /-- non-vacuity: `forall i in xs: (@i > 0 and @A.b)` with alias A splits into `len(xs) = 0 or @A.b` and the quantifier -/
 def exC10 : Expr :=
-  .quant 1 .all "i" (.field 8 (.this 64) "xs")
-    (.bin 1 "and" (.bin 1 ">" (.var 2 "i") (.lit 2 "0" (.int 0))) (.field 1 (.var 64 "A") "b"))
+  .quant T.BOOL .all "i" (.field T.ARRAY (.this T.MESSAGE) "xs")
+    (.bin T.BOOL "and" (.bin T.BOOL ">" (.var T.NUMBER "i") (.lit T.NUMBER "0" (.int 0))) (.field T.BOOL (.var T.MESSAGE "A") "b"))
 example : ∃ f1 f2, refactorExpr exC10 "A" = .ok (f1, f2) ∧ f1.containsRef "A" = false ∧ f2.containsRef "A" = true := by
   refine ⟨_, _, by rfl, by rfl, by rfl⟩
 
